@@ -2,6 +2,9 @@ import PeliteModel.Lemmas.VersionTree
 /-!
 C13 helper lemmas, part 4: what the reference writer writes, the parser reads back.
 -/
+set_option linter.unusedSimpArgs false
+set_option linter.unnecessarySimpa false
+
 namespace Pelite.Version
 open Spec
 
